@@ -1182,7 +1182,12 @@ def lemma_vacuity(txt, name):
                     elif tk.kind == "ident" and tk.text == "ensures" and ens is None:
                         ens = k
                     elif tk.kind == "punct" and tk.text == "{":
-                        break
+                        # the body brace is the first token on its line (lemma-file convention); a brace
+                        # inside the specification (`match x {`, `({`) is skipped with its block
+                        ls = txt.rfind("\n", 0, tk.start) + 1
+                        if txt[ls:tk.start].strip() == "":
+                            break
+                        k = match_close(toks, k)
                     k += 1
                 if k >= n:
                     raise ExtractError(f"{name}: cannot find body of proof fn")
